@@ -262,3 +262,10 @@ Definition chk_p_foreach (pools : list (list (hist Qc))) (tbl : list (list (list
                   | Some e => Ok (snd e) | None => Ok (VOut (qc 0 1)) end)) expected.
 Definition chk_aggw (ws : list (val (T:=Qc) * Z)) (expected : res (hist Qc)) : nat :=
   cres_code hist_eqb (aggw VO ws) expected.
+Definition default_pred (o : Qc) (src : hist Qc) : bool :=
+  match maxQ src with Some m => Veqb o m | None => false end.
+Definition chk_explode_default (h : hist Qc) (lim : option rawlimit) (infv : option Qc)
+           (expected : res (hist Qc)) : nat :=
+  cres_code cnt_eqb
+    (explode VO Vzero vadd FUEL h default_pred lim qzero
+             (fun o => match infv with Some v => Some (v * o)%Qc | None => None end)) expected.
